@@ -331,18 +331,34 @@ func addStepCase(o *Out, g *G, as *ASpec, st *AState, pending interface{}, nilCt
 	if cur := as.Nodes[st.Node]; cur != nil && cur.Action.hasLoop() {
 		loop = true
 	}
+	wrapGuards(spec)
+	resetGuardLog()
 	r1 := runStep(spec, st.core(), deepCopy(pending, nil), ctl, props, loop)
+	glog := takeGuardLog()
 	r2 := runStep(spec, st.core(), deepCopy(pending, g), ctl, props, loop)
+	takeGuardLog()
 	gor, ok := r1.coq()
 	if !ok {
 		gor = "GStepUnrep"
+	}
+	// the guard-call log of the first run ("None": nothing usable was recorded, e.g. the step hung)
+	glogTerm := "None"
+	if r1.Outcome == "ok" {
+		if s, ok := coqGuardLog(glog, st.Node); ok {
+			glogTerm = "(Some " + s + ")"
+		}
+	}
+	if len(glog) >= 2 {
+		o.count("guard-calls:2+")
+	} else if len(glog) == 1 {
+		o.count("guard-calls:1")
 	}
 	pend := "None"
 	if pending != nil {
 		pend = "(Some " + mustCoqJSON(pending) + ")"
 	}
-	term := fmt.Sprintf("(mk_scase %s %s %s %s %s %s %s)", as.coq(), st.coq(), pend, gor,
-		coqBool(r1.Intact && r2.Intact), coqBool(r1.Shared || r2.Shared), coqBool(r1.key() == r2.key()))
+	term := fmt.Sprintf("(mk_scase %s %s %s %s %s %s %s %s)", as.coq(), st.coq(), pend, gor,
+		coqBool(r1.Intact && r2.Intact), coqBool(r1.Shared || r2.Shared), coqBool(r1.key() == r2.key()), glogTerm)
 	o.count("outcome:" + r1.Outcome)
 	o.count("err:" + r1.Err)
 	nd := as.Nodes[st.Node]
@@ -355,7 +371,8 @@ func addStepCase(o *Out, g *G, as *ASpec, st *AState, pending interface{}, nilCt
 	}
 	sample := &stepCase{Spec: as, State: st, Pending: pending, NilCtl: nilCtl,
 		Go: map[string]interface{}{"outcome": r1.Outcome, "err": r1.Err, "stride": r1.Stride,
-			"intact": r1.Intact && r2.Intact, "shared": r1.Shared || r2.Shared, "repeat_equal": r1.key() == r2.key()}}
+			"intact": r1.Intact && r2.Intact, "shared": r1.Shared || r2.Shared, "repeat_equal": r1.key() == r2.key(),
+			"guard_calls": glog}}
 	nontrivial := moved || r1.Err != "GNone"
 	hasPerm := false
 	for k := range st.Bs {
